@@ -1499,9 +1499,14 @@ class H2Connection:
 
         # HEADER_TABLE_SIZE changes by the remote part affect our encoder: cf.
         # RFC 7540 Section 6.5.2.
+        # Only tell the encoder about a value it does not have yet: setting
+        # the same size again would make it drop a table size update it still
+        # has to send (the peer repeated the value, or gave it in the
+        # HTTP2-Settings header first and in its SETTINGS frame again).
         if SettingCodes.HEADER_TABLE_SIZE in changes:
             setting = changes[SettingCodes.HEADER_TABLE_SIZE]
-            self.encoder.header_table_size = setting.new_value
+            if setting.new_value != self.encoder.header_table_size:
+                self.encoder.header_table_size = setting.new_value
 
         if SettingCodes.MAX_FRAME_SIZE in changes:
             setting = changes[SettingCodes.MAX_FRAME_SIZE]
